@@ -45,13 +45,15 @@ pub open spec fn nxt(l: Seq<nat>, i: int) -> nat { if i + 1 < l.len() { l[i + 1]
 pub open spec fn first(l: Seq<nat>) -> nat { if l.len() > 0 { l[0] } else { 0 } }
 /// (each quantifier lives in its own named predicate: folding an opaque predicate whose body nests several quantifiers was
 /// unstable — all sub-assertions proved, the whole did not; see DESIGN 11.6)
+pub open spec fn list_member_ok(slots: Map<nat, SlotW>, l: Seq<nat>, c: int, i: int) -> bool {
+    &&& slots.dom().contains(l[i])
+    &&& l[i] != 0
+    &&& class_idx(slots[l[i]].size) == c
+    &&& slots[l[i]].c == SlotC::Free(nxt(l, i))
+}
+/// the trigger is the whole per-member predicate: a goal of this shape is matched at once by a fact of this shape
 pub open spec fn list_members_ok(slots: Map<nat, SlotW>, l: Seq<nat>, c: int) -> bool {
-    forall|i: int| 0 <= i < l.len() ==> {
-            &&& #[trigger] slots.dom().contains(l[i])
-            &&& l[i] != 0
-            &&& class_idx(slots[l[i]].size) == c
-            &&& slots[l[i]].c == SlotC::Free(nxt(l, i))
-        }
+    forall|i: int| 0 <= i < l.len() ==> #[trigger] list_member_ok(slots, l, c, i)
 }
 pub open spec fn list_distinct(l: Seq<nat>) -> bool {
     forall|i: int, j: int| 0 <= i < j < l.len() ==> l[i] != l[j]
@@ -182,7 +184,7 @@ pub proof fn lemma_list_member(slots: Map<nat, SlotW>, l: Seq<nat>, c: int, i: i
         forall|j: int| 0 <= j < l.len() && j != i ==> l[j] != l[i]
 {
     reveal(list_ok);
-    assert(slots.dom().contains(l[i]));
+    assert(list_member_ok(slots, l, c, i));
     assert forall|j: int| 0 <= j < l.len() && j != i implies l[j] != l[i] by {
         if j < i { assert(l[j] != l[i]); } else { assert(l[i] != l[j]); }
     }
@@ -195,12 +197,7 @@ pub proof fn lemma_list_untouched(slots: Map<nat, SlotW>, slots1: Map<nat, SlotW
 {
     // pattern used for every "re-establish an opaque predicate" lemma: facts come from the member lemma (no global reveal), the
     // conjuncts are proved one by one, the predicate is folded at the end. (Re-folding under a global reveal was flaky across z3 seeds.)
-    assert forall|i: int| 0 <= i < l.len() implies {
-        &&& #[trigger] slots1.dom().contains(l[i])
-        &&& l[i] != 0
-        &&& class_idx(slots1[l[i]].size) == c
-        &&& slots1[l[i]].c == SlotC::Free(nxt(l, i))
-    } by {
+    assert forall|i: int| 0 <= i < l.len() implies #[trigger] list_member_ok(slots1, l, c, i) by {
         lemma_list_member(slots, l, c, i);
         assert(slots1.dom().contains(l[i]));
         assert(slots1[l[i]] == slots[l[i]]);
@@ -217,10 +214,9 @@ pub proof fn lemma_not_member(slots: Map<nat, SlotW>, l: Seq<nat>, c: int, o: na
     requires list_ok(slots, l, c), slots.dom().contains(o), !(slots[o].c is Free) || class_idx(slots[o].size) != c
     ensures !l.contains(o)
 {
-    reveal(list_ok);
     if l.contains(o) {
         let i = choose|i: int| 0 <= i < l.len() && l[i] == o;
-        assert(slots.dom().contains(l[i]));
+        lemma_list_member(slots, l, c, i);
     }
 }
 pub proof fn lemma_list_push(slots: Map<nat, SlotW>, l: Seq<nat>, c: int, o: nat)
@@ -229,12 +225,7 @@ pub proof fn lemma_list_push(slots: Map<nat, SlotW>, l: Seq<nat>, c: int, o: nat
 {
     let slots1 = slots.insert(o, SlotW { size: slots[o].size, c: SlotC::Free(first(l)) });
     let l2 = seq![o] + l;
-    assert forall|i: int| 0 <= i < l2.len() implies {
-        &&& #[trigger] slots1.dom().contains(l2[i])
-        &&& l2[i] != 0
-        &&& class_idx(slots1[l2[i]].size) == c
-        &&& slots1[l2[i]].c == SlotC::Free(nxt(l2, i))
-    } by {
+    assert forall|i: int| 0 <= i < l2.len() implies #[trigger] list_member_ok(slots1, l2, c, i) by {
         if i > 0 {
             assert(l2[i] == l[i - 1]);
             lemma_list_member(slots, l, c, i - 1);
@@ -269,12 +260,7 @@ pub proof fn lemma_list_unlink(slots: Map<nat, SlotW>, l: Seq<nat>, c: int, k: i
     let l2 = rm(l, k);
     lemma_list_member(slots, l, c, k);
     if k > 0 { lemma_list_member(slots, l, c, k - 1); }
-    assert forall|i: int| 0 <= i < l2.len() implies {
-        &&& #[trigger] slots2.dom().contains(l2[i])
-        &&& l2[i] != 0
-        &&& class_idx(slots2[l2[i]].size) == c
-        &&& slots2[l2[i]].c == SlotC::Free(nxt(l2, i))
-    } by {
+    assert forall|i: int| 0 <= i < l2.len() implies #[trigger] list_member_ok(slots2, l2, c, i) by {
         let i0 = if i < k { i } else { i + 1 };
         assert(l2[i] == l[i0]);
         if i + 1 < l2.len() { assert(l2[i + 1] == l[(if i + 1 < k { i + 1 } else { i + 2 })]); }
